@@ -26,7 +26,10 @@ package transport
 // not exist, and updated or deleted only when its current value equals the
 // old value the client sent; and a reference is only ever set to an object
 // that is stored in the repository (git receive-pack update(): "unpack should
-// have generated ...").
+// have generated ..."). The report is kept per reference name: an outcome
+// that was applied (nil) is never replaced by the outcome of another command
+// for the same name -- a further command for a name that already has an
+// outcome is refused without touching it (`kept`).
 //gvc:func updateReferences
 //gvc:  props C39
 //gvc:  theory int
